@@ -64,6 +64,7 @@ func doc(n int) []byte {
 		"n": n, "s": "word one two", "arr": []int{1, 2, 3}, "tags": []string{"a", "b"},
 		"m": map[string]any{"a": 1, "b": "x"}, "lat": 47.5, "lng": 19.04, "vec": []float32{0.1, 0.2, 0.3},
 		"items": []map[string]any{{"q": 1, "name": "x"}, {"q": 5, "name": "y"}},
+		"grid":  [][]int{{1, 2}, {3, 4}},
 	})
 	return append([]byte{0xC7, 0x00}, body...)
 }
@@ -91,11 +92,45 @@ func seedKVs(now time.Time) []*hydrapb.KeyValuePair {
 			d.ExpiredAt = past
 		}
 		kv = append(kv, d)
+		kv = append(kv, &hydrapb.KeyValuePair{Key: fmt.Sprintf("xdoc%d", i), BytesVal: doc(10 + i), ExpiredAt: past, CreatedAt: created, UpdatedAt: created})
 	}
 	return kv
 }
 
-var existingKeys = []string{"i8", "i16", "i32", "i64", "u8", "u16", "u32", "u64", "f32", "f64", "str", "bool", "bytes", "slice", "void", "exp1", "exp2", "exp3", "doc1", "doc2", "doc3"}
+// docArrays are the arrays stored in every msgpack document of the world, with their lengths:
+// index paths are generated relative to them.
+var docArrays = []struct {
+	path, suffix string
+	n            int
+}{{"tags", "", 2}, {"arr", "", 3}, {"grid", "", 2}, {"grid[0]", "", 2}, {"items", ".q", 2}, {"grid", "[1]", 2}, {"vec", "", 3}}
+
+type idxRel struct {
+	class string
+	at    func(n int) string
+}
+
+// most hostile first
+var idxRels = []idxRel{
+	{"minus-len-minus-5", func(n int) string { return fmt.Sprint(-n - 5) }},
+	{"minus-len-minus-1", func(n int) string { return fmt.Sprint(-n - 1) }},
+	{"min-int64", func(int) string { return "-9223372036854775808" }},
+	{"huge", func(int) string { return "99999999999999999999" }},
+	{"len-plus-1", func(n int) string { return fmt.Sprint(n + 1) }},
+	{"len", func(n int) string { return fmt.Sprint(n) }},
+	{"minus-len", func(n int) string { return fmt.Sprint(-n) }},
+	{"minus-1", func(int) string { return "-1" }},
+	{"len-minus-1", func(n int) string { return fmt.Sprint(n - 1) }},
+	{"zero", func(int) string { return "0" }},
+	{"max-int64", func(int) string { return "9223372036854775807" }},
+	{"minus-zero", func(int) string { return "-0" }},
+}
+
+func indexPath(a, r int) (string, string) {
+	da, ir := docArrays[a%len(docArrays)], idxRels[r%len(idxRels)]
+	return da.path + "[" + ir.at(da.n) + "]" + da.suffix, "index:" + da.path + da.suffix + ":" + ir.class
+}
+
+var existingKeys = []string{"xdoc1", "xdoc2", "xdoc3", "i8", "i16", "i32", "i64", "u8", "u16", "u32", "u64", "f32", "f64", "str", "bool", "bytes", "slice", "void", "exp1", "exp2", "exp3", "doc1", "doc2", "doc3"}
 
 // ---- hostile pools -------------------------------------------------------------------------
 
@@ -163,6 +198,17 @@ var pathPool = []strChoice{
 	{"len", func(*world, *rand.Rand) string { return "arr#len" }},
 	{"long", func(*world, *rand.Rand) string { return long(70000, "p") }},
 	{"deep", func(*world, *rand.Rand) string { return strings.TrimSuffix(strings.Repeat("a.", 5000), ".") }},
+}
+
+func init() {
+	// array indices relative to the stored arrays' lengths (half of the path pool)
+	n := len(pathPool)
+	for i := 0; i < n+8; i++ {
+		pathPool = append(pathPool, strChoice{"relative-index", func(_ *world, r *rand.Rand) string {
+			p, _ := indexPath(r.IntN(len(docArrays)), r.IntN(len(idxRels)))
+			return p
+		}})
+	}
 }
 
 var textPool = []strChoice{
@@ -861,6 +907,70 @@ func sweep(root protoreflect.Message, k int) (string, bool) {
 	return fmt.Sprintf("%s=boundary(%v)", s.path, vals[vi].Interface()), true
 }
 
+// ---- patch sweep ---------------------------------------------------------------------------
+
+// After the numeric sweep, the patch-capable RPCs walk (stored array) x (index relative to its
+// length, most hostile first) x (path used in an op | in a condition), all four RPCs with the
+// same hostile paths, against records that are expired (so PatchExpired selects them).
+var patchSweepPerMode, patchSweepGrpcOffset = 6, 6
+
+var patchKinds = []hydrapb.PatchOp_Kind{hydrapb.PatchOp_REMOVE_AT, hydrapb.PatchOp_SET, hydrapb.PatchOp_INC, hydrapb.PatchOp_DELETE, hydrapb.PatchOp_APPEND, hydrapb.PatchOp_PREPEND, hydrapb.PatchOp_REMOVE_VAL, hydrapb.PatchOp_MERGE}
+
+func patchSweep(rpc string, k int, w *world) (msgs []proto.Message, label string, targets []string, ok bool) {
+	rel := k / (2 * len(docArrays))
+	if rel >= len(idxRels) {
+		return nil, "", nil, false
+	}
+	arr, inCond := (k/2)%len(docArrays), k%2 == 1
+	path, class := indexPath(arr, rel)
+	kind := patchKinds[(k/2+rel)%len(patchKinds)]
+	ops := func() []*hydrapb.PatchOp {
+		if inCond {
+			return []*hydrapb.PatchOp{{Op: hydrapb.PatchOp_SET, Path: "n", Value: mp(77)}}
+		}
+		op := &hydrapb.PatchOp{Op: kind, Path: path, Value: mp(1)}
+		if kind == hydrapb.PatchOp_MERGE {
+			op.Value = mp(map[string]any{"z": 1})
+		}
+		return []*hydrapb.PatchOp{op}
+	}
+	cond := func() *hydrapb.PatchCondition {
+		if !inCond {
+			return nil
+		}
+		return &hydrapb.PatchCondition{Path: path, Operator: hydrapb.PatchCondition_Op(k / 2 % 8), Threshold: mp(1)}
+	}
+	t1, t2 := w.Targets[k%len(w.Targets)], w.Targets[(k+1)%len(w.Targets)]
+	pt := func(t string) *hydrapb.PatchTreasuresRequest {
+		q := &hydrapb.PatchTreasuresRequest{IslandID: safeIsland(t), SwampName: t}
+		for _, key := range []string{"doc1", "xdoc2", "doc3"} {
+			q.Patches = append(q.Patches, &hydrapb.TreasurePatch{Key: key, Ops: ops(), Condition: cond()})
+		}
+		return q
+	}
+	pe := func(t string) *hydrapb.PatchExpiredTreasuresRequest {
+		return &hydrapb.PatchExpiredTreasuresRequest{IslandID: safeIsland(t), SwampName: t, HowMany: 0, Ops: ops(), Condition: cond(), Meta: &hydrapb.PatchMeta{SetUpdatedAt: true}}
+	}
+	label = "Ops[].Path=" + class
+	if inCond {
+		label = "Condition.Path=" + class
+	} else {
+		label += "(" + kind.String() + ")"
+	}
+	label += "{" + path + "}"
+	switch rpc {
+	case "PatchTreasures":
+		return []proto.Message{pt(t1)}, label, []string{t1}, true
+	case "PatchTreasuresMany":
+		return []proto.Message{&hydrapb.PatchTreasuresManyRequest{Requests: []*hydrapb.PatchTreasuresRequest{pt(t1), pt(t2)}}}, label, []string{t1, t2}, true
+	case "PatchExpiredTreasures":
+		return []proto.Message{pe(t1)}, label, []string{t1}, true
+	case "PatchExpiredTreasuresMany":
+		return []proto.Message{&hydrapb.PatchExpiredTreasuresManyRequest{Requests: []*hydrapb.PatchExpiredTreasuresRequest{pe(t1), pe(t2)}}}, label, []string{t1, t2}, true
+	}
+	return nil, "", nil, false
+}
+
 // ---- follow-ups: requests that use what a request configured ---------------------------------
 
 type followUp struct {
@@ -941,7 +1051,8 @@ func patternFollowUps(pattern, after string, idx int) []followUp {
 type genCase struct {
 	RPC    string
 	Idx    int
-	Style  string // seed | mutate1 | mutateN | generic | no-message
+	Style  string   // seed | sweep | patch-sweep | mutate1 | mutateN | generic | no-message
+	PatchT []string // patch-sweep: the swamps whose expired records must stay claimable
 	Labels []string
 	Msgs   []proto.Message // canonical (as decoded from the wire)
 	Wires  [][]byte
@@ -968,6 +1079,14 @@ func buildCase(ri rpcInfo, idx int, w *world, r *rand.Rand) *genCase {
 	if seed != nil && k >= 0 {
 		if lb, ok := sweep(seed[0].ProtoReflect(), k); ok {
 			gc.Style, gc.Labels, msgs, swept = "sweep", []string{lb}, seed, true
+		}
+	}
+	if kk := local - sweepPerMode; !swept && kk >= 0 && kk < patchSweepPerMode {
+		if idx >= grpcIdxBase {
+			kk += patchSweepGrpcOffset
+		}
+		if pm, lb, ts, ok := patchSweep(ri.Name, kk, w); ok {
+			gc.Style, gc.Labels, gc.PatchT, msgs, swept = "patch-sweep", []string{lb}, ts, pm, true
 		}
 	}
 	switch {
